@@ -291,11 +291,13 @@ def run_shards(tag, prop, tier, seed, rundir, nshards=None, scale=None, time_cap
     return shards
 
 
-def run_only(tag, prop, tier, seed, stream, idx, timeout=300):
+def run_only(tag, prop, tier, seed, stream, idx, timeout=300, fail_alloc=None):
     """Re-execute one case in a fresh process; returns (rc, stdout+stderr)."""
     cmd, _ = build(tag)
     args = list(cmd) + ["--prop", prop, "--tier", tier, "--seed", str(seed), "--build", tag,
                         "--only", "%s:%d" % (stream, idx)]
+    if fail_alloc:
+        args += ["--fail-alloc", str(fail_alloc)]
     try:
         p = subprocess.run(args, env=worker_env(tag), cwd=HARNESS, stdout=subprocess.PIPE, stderr=subprocess.PIPE, timeout=timeout)
     except subprocess.TimeoutExpired:
@@ -417,6 +419,77 @@ MIRI_QUICK = {"C02": 1.0, "C09": 1.0, "C13": 1.0, "C18": 1.0, "C19": 1.0}
 MIRI_THOROUGH = {"C01": 4.0, "C02": 8.0, "C05": 2.0, "C09": 4.0, "C11": 4.0, "C12": 2.0, "C13": 8.0, "C18": 8.0, "C19": 2.0}
 ASAN_THOROUGH = {"C01": 20.0, "C02": 20.0, "C05": 10.0, "C07": 10.0, "C08": 10.0, "C09": 20.0, "C11": 20.0, "C12": 10.0, "C13": 20.0, "C18": 20.0}
 TSAN_THOROUGH = {"C19": 1.0}
+
+# fault enumeration: "the k-th allocation request made during a codec call is refused"
+ALLOCFAIL_PROPS = {"C03": 10, "C04": 10, "C05": 8, "C06": 8, "C10": 10, "C11": 8, "C12": 8, "C15": 10}
+ALLOCFAIL_MAX_K = 40
+
+
+def allocfail_stage(prop, tier, seed, hard, inconclusive, extra_cov, stages):
+    """For a few cases of each stream, re-run the case in a fresh process with the k-th allocation
+    inside codec calls refused (k = 1..40). Clean code cannot continue without memory: the process
+    aborts (std's handle_alloc_error), which is the loud failure. A process that survives an
+    injected failure and then fails the case's own oracle has carried on with a wrong answer."""
+    from concurrent.futures import ThreadPoolExecutor
+    t0 = now()
+    cmd, _ = build("rel")
+    meta = worker_meta(prop, "quick")
+    n_cases = ALLOCFAIL_PROPS[prop] * (3 if tier == "thorough" else 1)
+    jobs = []
+    for sdef in meta["streams"]:
+        if sdef["count"] <= 0 or sdef["name"] in ("big", "giant", "soak", "full_sweep", "flagwords", "small_exhaustive", "payload_lengths"):
+            continue
+        for idx in range(min(n_cases, sdef["count"])):
+            # spread over the stream
+            real_idx = (idx * 7919 + seed * 104729) % sdef["count"]
+            for k in range(1, ALLOCFAIL_MAX_K + 1):
+                jobs.append((sdef["name"], real_idx, k))
+        if len(jobs) > 4000:
+            break
+
+    def one(job):
+        stream, idx, k = job
+        args = list(cmd) + ["--prop", prop, "--tier", "quick", "--seed", str(seed), "--build", "rel", "--only", "%s:%d" % (stream, idx), "--fail-alloc", str(k)]
+        try:
+            p = subprocess.run(args, env=worker_env("rel"), cwd=HARNESS, stdout=subprocess.PIPE, stderr=subprocess.PIPE, timeout=120)
+        except subprocess.TimeoutExpired:
+            return job, "timeout", ""
+        out = p.stdout.decode("utf-8", "replace")
+        fired = "fired=true" in out
+        if p.returncode == 0:
+            return job, "survived-held" if fired else "not-reached", ""
+        if p.returncode == 1 and fired:
+            m = re.search(r"REPLAY-VIOLATION property=\S+ signature=(\S+) detail=([^\n]*)", out)
+            return job, "survived-wrong", (m.group(1), m.group(2)[:400]) if m else ("?", out[-300:])
+        if p.returncode == 1:
+            return job, "violates-anyway", ""
+        if p.returncode == 101:
+            return job, "harness-panic", ""
+        return job, "aborted", ""
+
+    counts = {}
+    wrong = []
+    with ThreadPoolExecutor(max_workers=NSHARDS) as ex:
+        for job, outcome, info in ex.map(one, jobs):
+            counts[outcome] = counts.get(outcome, 0) + 1
+            if outcome == "survived-wrong":
+                wrong.append((job, info))
+    stage = {"build": "rel+allocation-failure-injection", "cases_x_failure_points": len(jobs), "outcomes": counts, "wall_s": round(now() - t0, 1)}
+    stages.append(stage)
+    extra_cov["allocation_failure_injection"] = stage
+    if counts.get("aborted", 0) + counts.get("survived-held", 0) + counts.get("survived-wrong", 0) == 0:
+        inconclusive.append("allocation-failure injection never fired")
+    seen = set()
+    for (stream, idx, k), (sig, detail) in wrong:
+        key = sig
+        if key in seen:
+            continue
+        seen.add(key)
+        hard.append({"signature": "%s:allocation-failure:carries-on-with-wrong-result:%s" % (prop, sig.split(":", 1)[-1][:80]), "build": "rel", "stream": stream, "idx": idx, "tier": "quick",
+                     "fail_alloc": k,
+                     "detail": "with allocation request #%d of the codec calls refused, case %s:%d neither aborted nor reported an error but went on and failed its oracle: %s" % (k, stream, idx, detail),
+                     "witness": {"refused_allocation": k}})
+
 
 BROAD_PROPS = ["C01", "C05", "C08", "C10", "C13", "C15", "C20"]
 FUZZ_THOROUGH = {"C01": "decode", "C02": "decode", "C05": "decode", "C10": "decode", "C14": "decode", "C12": "reveal", "C13": "reveal"}
@@ -625,6 +698,8 @@ def _check(prop, tier, seed, rundir, t_start):
         stages.append(stage)
 
     extra_cov = {}
+    if prop in ALLOCFAIL_PROPS:
+        allocfail_stage(prop, tier, seed, hard, inconclusive, extra_cov, stages)
     if tier == "thorough" and prop in FUZZ_THOROUGH:
         fuzz_stage(prop, FUZZ_THOROUGH[prop], seed, rundir, hard, inconclusive, extra_cov, stages)
     if prop == "C19":
@@ -662,7 +737,7 @@ def _check(prop, tier, seed, rundir, t_start):
         h = hashlib.sha1(sig.encode()).hexdigest()[:10]
         path = os.path.join(ROOT, "replays", "%s-%s.json" % (prop, h))
         json.dump({"property": prop, "signature": sig, "build": v.get("build"), "tier": v.get("tier", tier if v.get("build") in ("dbg", "rel") else ("miri" if v.get("build") == "miri" else "san")),
-                   "seed": seed, "stream": v.get("stream"), "idx": v.get("idx"), "detail": v.get("detail"), "witness": v.get("witness"),
+                   "seed": seed, "stream": v.get("stream"), "idx": v.get("idx"), "fail_alloc": v.get("fail_alloc"), "detail": v.get("detail"), "witness": v.get("witness"),
                    "occurrences": merged.sig_counts.get(sig, len(vs))}, open(path, "w"), indent=1)
         replay_paths.append((sig, path, v))
 
@@ -950,7 +1025,7 @@ def replay(path):
     if r.get("stream") is None:
         print("replay file carries no case (supervisor-level finding): %s" % r.get("detail"))
         return 2
-    rc, out = run_only(tag, prop, r.get("tier") or "quick", r["seed"], r["stream"], int(r["idx"]))
+    rc, out = run_only(tag, prop, r.get("tier") or "quick", r["seed"], r["stream"], int(r["idx"]), fail_alloc=r.get("fail_alloc"))
     print(out[-4000:])
     if rc == 0:
         print("REPLAY: property=%s held on %s:%s (%s build)" % (prop, r["stream"], r["idx"], tag))
